@@ -31,6 +31,12 @@ Address : histories in which the server's ADDRESS is contended for or goes away 
           after the contention is answered with its own reply, executed once; shutdown() / server_close() return and do not
           raise; afterwards the listening socket is closed and the workers of its pool are dead — and for the contender: its
           own socket is closed and the workers of its own pool are dead when its constructor has raised.
+Reuse   : a USER-SUPPLIED pool outlives a server: histories in which the pool object (min_threads = 0 and > 0, max 1..4) is handed
+          to a server, that server is closed (request in flight / queued / idle), the user calls pool.start() and hands the pool
+          to a NEW server (`reuse` chains, two or three life cycles), or stops and restarts the pool under the SAME serving
+          server (`poolcycle`).  Same monitors per life cycle; each life cycle is compared with the model started afresh — what
+          C11_restart (a stopped pool is in the configuration of a new one) and C12_pool_reuse (the pool abstraction of the
+          model holds in every state of a restarted pool) justify.
 Stage 2 : the hand-over to the request pool under the deterministic scheduler (harness/poolpaths.py, no sockets): a real
           PooledJSONRPCServer (bind_and_activate=False, default or user pool) whose `process_request_thread` is a recording
           stub; a managed accept-loop thread calls `process_request` for a sequence of fake requests, interleaved with the
@@ -57,7 +63,7 @@ REQUIRED_THEOREMS = [
     "C12_isolation", "C12_once", "C12_accepted_is_started", "C12_serves_next", "C12_failure_is_local", "C12_survives",
     "C12_close_no_stuck", "C12_shutdown_no_stuck", "C12_close_steps_enabled", "C12_close_post", "C12_close_without_serving",
     "C12_full_statement", "C12_idle_connection_holds_stop", "C12_idle_released_by_client", "C12_idle_persist",
-    "C12_view_steps", "C12_pool_instantiation", "C09_at_most_once", "C09_none_after_stop",
+    "C12_view_steps", "C12_pool_instantiation", "C12_pool_reuse", "C09_at_most_once", "C09_none_after_stop",
     "C12_gen_serverClose", "C12_gen_serveFlag", "C12_gen_processRequest",
     "C12_gen_poolRetireRule", "C12_gen_poolGrowthRule", "C12_gen_poolPendingStores", "C12_gen_poolUnlockedAccesses",
     "C12_gen_sharedWrites", "C12_gen_catchAll", "C12_gen_cfg", "C12_gen_isolation", "C12_gen_survives",
@@ -320,7 +326,7 @@ class Life(object):
     """One real server under a life-cycle history."""
     counter = 0
 
-    def __init__(self, kind, family, tmpdir, pool_spec, http11=False, bind=True):
+    def __init__(self, kind, family, tmpdir, pool_spec, http11=False, bind=True, pool_obj=None):
         import jsonrpclib.SimpleJSONRPCServer as SRV
         import jsonrpclib.threadpool as TP
         self.kind, self.family = kind, family
@@ -354,7 +360,10 @@ class Life(object):
                     outer.handlers_started += 1
 
         if kind == "pooled":
-            if pool_spec is not None:
+            if pool_obj is not None:
+                # a pool the user owns and has used before (already started): handed to this server as it is
+                self.pool = pool_obj
+            elif pool_spec is not None:
                 self.pool = TP.ThreadPool(pool_spec[0], pool_spec[1])
                 self.pool.start()
             self.server = SRV.PooledJSONRPCServer(self.addr, requestHandler=Handler, logRequests=False, address_family=fam,
@@ -645,6 +654,63 @@ def rmfile_histories(kind, thorough):
 
 ADDRESS_OPS = ("contend", "rmfile", "unbound")
 
+# user-supplied pools whose life is longer than one server life cycle: (max, min) — min = 0 (no resident worker: only the
+# pool's own accounting starts one), max = 1, a resident worker, the shape of the default pool
+REUSE_POOLS = [(1, 0), (2, 0), (4, 0), (2, 1), (3, 2), (1, 1)]
+
+
+def reuse_chains(pool_spec, thorough):
+    """Life-cycle histories of a USER-SUPPLIED request pool that is REUSED: each element is one server life cycle on a new
+    PooledJSONRPCServer given the same pool object; between two of them the user calls pool.start() again.  The first life
+    cycles end with server_close() while a request is in flight / while every worker is busy and a request is queued /
+    with idle workers only; the following ones must serve as a server with a fresh pool does — a lone request, and
+    (max >= 2) a request that arrives while another one is in flight — and are stopped in the same ways."""
+    cap = pool_spec[0]
+    busy = ["serve"] + ["slow"] * cap
+    ends = [["serve", "slow", "close"], busy + ["queued", "close"], ["serve", "req", "shutdown", "close"], busy + ["shutdown", "close"]]
+    lone = ["serve", "req", "req", "shutdown", "close"]
+    overlap = ["serve", "slow", "req", "close"] if cap >= 2 else ["serve", "slow", "close"]
+    chains = [[ends[0], overlap, lone], [ends[1], lone], [ends[3], overlap, ["serve", "req", "close"]]]
+    if thorough:
+        chains += [[ends[2], overlap, lone], [ends[1], busy + ["queued", "shutdown", "close"], lone, overlap],
+                   [ends[0], ends[0], ends[0], lone], [["close"], lone], [ends[0], ["close"], lone]]
+    return chains
+
+
+def recycle_histories(pool_spec):
+    """The SAME server goes on serving while the user stops and restarts its pool (`poolcycle`) with requests in flight."""
+    cap = pool_spec[0]
+    out = [["serve", "slow", "poolcycle", "req", "shutdown", "close"], ["serve", "req", "poolcycle", "req", "close"]]
+    if cap >= 2:
+        out += [["serve", "slow", "slow", "poolcycle", "slow", "req", "close"]]
+    else:
+        out += [["serve", "slow", "poolcycle", "slow", "poolcycle", "req", "close"]]
+    return out
+
+
+def run_reuse(ctx, family, tmpdir, pool_spec, chain):
+    """One user-supplied pool, started by the user, handed to one new PooledJSONRPCServer per element of `chain`; restarted by
+    the user (pool.start()) between two life cycles.  -> [(history, results, projection, [(violation, key)], model ops)]"""
+    import jsonrpclib.threadpool as TP
+    pool = TP.ThreadPool(pool_spec[0], pool_spec[1])
+    pool.start()
+    out = []
+    try:
+        for k, h in enumerate(chain):
+            if k:
+                if not pool._done_event.is_set():
+                    break           # the previous server_close() did not stop the pool: reported there
+                pool.start()        # the user starts its pool again
+            results, proj, viol, model_ops = run_history(ctx, "pooled", family, tmpdir, pool_spec, h, pool_obj=pool)
+            viol = [("life cycle %d of a reused user pool ThreadPool%r: %s" % (k + 1, tuple(pool_spec), m), key) for m, key in viol]
+            out.append((h, results, proj, viol, model_ops))
+            if any(key.startswith(("stop-hang", "reply", "lost")) for _, key in viol):
+                break               # this life cycle did not end as it must: what follows would not be a reuse of a stopped pool
+    finally:
+        if not pool._done_event.is_set():
+            run_with_watchdog(pool.stop, 2)
+    return out
+
 
 def workers_needed(h):
     """Peak number of pool workers the history occupies at once (slow and idle connections hold one each)."""
@@ -655,6 +721,8 @@ def workers_needed(h):
             need = max(need, held)
         elif op in SIMPLE_OPS:
             need = max(need, held + 1)
+        elif op == "poolcycle":
+            held = 0        # the user's pool.stop() returns once the requests in flight have completed
     return need
 
 
@@ -670,10 +738,15 @@ def model_op(op, tok):
     return "%s%d" % (op, tok)       # slow idle idleka queued
 
 
-def run_history(ctx, kind, family, tmpdir, pool_spec, hist):
+def run_history(ctx, kind, family, tmpdir, pool_spec, hist, pool_obj=None):
     """Executes one history on the real server.
-    -> (op results, final projection, [(violation, key)], model ops)"""
-    L = Life(kind, family, tmpdir, pool_spec, http11=("idleka" in hist), bind=("unbound" not in hist))
+    -> (op results, final projection, [(violation, key)], model ops)
+    `pool_obj`: a started ThreadPool of shape `pool_spec` that the user has used before (see run_reuse).
+    Op `poolcycle` (user-supplied pools): the USER stops its own pool while the server serves — pool.stop() waits for the
+    requests in flight like server_close() does, its workers must be dead afterwards — and starts it again; the server goes
+    on serving with it.  In the model the pool is the abstraction that C09-C11 justify for every reachable pool state,
+    restarted ones included (C11_restart, C12_pool_reuse): the op itself is transparent there, the `finish` ops are not."""
+    L = Life(kind, family, tmpdir, pool_spec, http11=("idleka" in hist), bind=("unbound" not in hist), pool_obj=pool_obj)
     results, viol, model_ops = [], [], []
     toks = []                   # tokens in acceptance order = connection indices of the model
     specs = {}
@@ -690,18 +763,21 @@ def run_history(ctx, kind, family, tmpdir, pool_spec, hist):
         return tok
 
     def stop(name):
-        fn = L.server.shutdown if name == "shutdown" else L.server.server_close
+        fn = {"shutdown": L.server.shutdown, "close": L.server.server_close}.get(name) or L.pool.stop
+        cycle = name == "poolcycle"
         L.snapshot_pool_threads()
         if kind == "pooled":
-            held_f, held_i = (list(inflight), list(idle)) if name == "close" else ([], [])
+            held_f, held_i = (list(inflight), list(idle)) if name in ("close", "poolcycle") else ([], [])
         else:
             held_f, held_i = ([], list(idle)) if name == "shutdown" else ([], [])
         box = []
         th = threading.Thread(target=lambda: box.append(impl.outcome(fn)))
         th.daemon = True
         th.start()
-        model_ops.append(name)
-        what = "%s()" % ("shutdown" if name == "shutdown" else "server_close")
+        if not cycle:
+            model_ops.append(name)
+        what = "the user's pool.stop()" if cycle else "%s()" % ("shutdown" if name == "shutdown" else "server_close")
+        own = [] if cycle else results      # the result of the op itself: compared with the model unless transparent there
         if not held_f and not held_i:
             # nothing in flight, no connection held by a handler: it must return (generous deadline, robust under load)
             th.join(deadline())
@@ -709,14 +785,14 @@ def run_history(ctx, kind, family, tmpdir, pool_spec, hist):
                 HANG_SEEN[0] = True
                 viol.append(("%s did not return within %.0f s (no request in flight, no open connection; history %r)"
                              % (what, DEADLINE, hist), "stop-hang: %s %s" % (kind, name)))
-            results.append("blocked" if th.is_alive() else "ok")
+            own.append("blocked" if th.is_alive() else "ok")
         else:
             def returned_early(while_what):
                 """The stop operation is back although connections are still in flight: allowed only if its post-conditions
                 hold at that point — listening socket closed, every worker of the stopped pool terminated."""
-                if name != "close":
+                if name not in ("close", "poolcycle"):
                     return
-                if L.server.socket.fileno() != -1:
+                if name == "close" and L.server.socket.fileno() != -1:
                     viol.append(("%s returned while %s and the listening socket is still open" % (what, while_what), "post: socket-open"))
                 if L.pool is not None:
                     L.snapshot_pool_threads()
@@ -728,7 +804,7 @@ def run_history(ctx, kind, family, tmpdir, pool_spec, hist):
             # IDLE_WATCHDOG (only connections whose handler waits for the client) — the modelled behaviour
             th.join(MIN_BLOCK if held_f else IDLE_WATCHDOG)
             first_look = "blocked" if th.is_alive() else "ok"
-            results.append(first_look)
+            own.append(first_look)
             if not th.is_alive():
                 returned_early("requests %r are being dispatched" % (held_f,) if held_f
                                else "the connections %r are open, their handlers waiting for the client" % ([toks.index(t) for t in held_i],))
@@ -764,6 +840,12 @@ def run_history(ctx, kind, family, tmpdir, pool_spec, hist):
         if box and box[0][0] == "err":
             viol.append(("%s raised %r" % (what, box[0][1]), "stop-raised: %s" % name))
         stop_state[name] = "pending" if th.is_alive() else "returned"
+        if cycle and not th.is_alive():
+            # post-condition of the stop, then the user starts its pool again
+            if not wait_for(lambda: not any(t.is_alive() for t in L.pool_threads)):
+                viol.append(("pool workers %r are still alive after the user's pool.stop() returned"
+                             % [t.name for t in L.pool_threads if t.is_alive()], "post: workers-alive (pool.stop)"))
+            L.pool.start()
 
     try:
         for op in hist:
@@ -824,6 +906,10 @@ def run_history(ctx, kind, family, tmpdir, pool_spec, hist):
                 model_ops.append(model_op(op, tok))
             elif op in ("shutdown", "close"):
                 stop(op)
+            elif op == "poolcycle":
+                stop(op)
+                if stop_state[op] != "returned":
+                    break
             elif op == "unbound":
                 pass                # constructor configuration (bind_and_activate=False), see Life above
             elif op == "contend":
@@ -1069,6 +1155,8 @@ def search(ctx):
 
 
 def history_class(h):
+    if "poolcycle" in h:
+        return "pool-recycled-same-server"
     if "contend" in h:
         return "address-contended"
     if "unbound" in h:
@@ -1102,7 +1190,12 @@ def run_sockets(ctx):
                 "generous deadline; plus N concurrent raw clients (quick 8, thorough up to 48) mixing calls, notifications, "
                 "batches, failing and malformed requests, with a slow request in flight while fast ones complete, against pools "
                 "of size 1, 2, 30 and the plain server; distinct_nontrivial = distinct (server kind, pool, family, history) with "
-                "a stop operation issued while serving or with requests in flight")
+                "a stop operation issued while serving or with requests in flight; USER-SUPPLIED pools with a life longer than one "
+                "server life cycle (history/pooled/pool-reused/*, reuse/pool(max,min); shapes (1,0) (2,0) (4,0) (2,1), thorough also "
+                "(3,2) (1,1)): the pool is handed to a server that is closed with a request in flight / with every worker busy and a "
+                "request queued / after shutdown(), started again by the user and handed to a second and a third server, which must "
+                "answer a lone request and a request arriving while another is in flight, and stop cleanly; and the SAME server goes "
+                "on serving while the user stops and restarts the pool with requests in flight (history/pooled/pool-recycled-same-server)")
     tmpdir = tempfile.mkdtemp(prefix="jrv-c12-")
     old_to = socket.getdefaulttimeout()
     socket.setdefaulttimeout(20)
@@ -1157,6 +1250,11 @@ def run_sockets(ctx):
                         for h in rmfile_histories(kind, ctx.thorough):
                             if workers_needed(h) <= cap:
                                 extra.append((kind, pool_spec, family, h))
+        # user-supplied pools stopped and started again by the user under a serving server
+        for n, pool_spec in enumerate(REUSE_POOLS if ctx.thorough else REUSE_POOLS[:4]):
+            for family in (("tcp", "unix") if ctx.thorough else (("tcp", "unix")[n % 2],)):
+                for h in recycle_histories(pool_spec)[: None if ctx.thorough else 2 + (pool_spec[0] >= 2)]:
+                    extra.append(("pooled", pool_spec, family, h))
         if not ctx.thorough:
             # quick: every history on the default pooled server over TCP, a seeded third of the other combinations
             keep = [c for c in combos if (c[0] == "pooled" and c[1] is None and c[2] == "tcp")]
@@ -1186,6 +1284,23 @@ def run_sockets(ctx):
             for op in h:
                 if op in SIMPLE_OPS and op != "req":
                     ctx.hist["request/" + op] += 1
+        # user-supplied pools reused across server life cycles
+        for n, pool_spec in enumerate(REUSE_POOLS if ctx.thorough else REUSE_POOLS[:4]):
+            chains = reuse_chains(pool_spec, ctx.thorough)
+            for m, chain in enumerate(chains):
+                if len(unknown_violations(ctx)) >= 6:
+                    break
+                family = ("tcp", "unix")[(n + m) % 2]
+                case = {"server": "pooled", "pool": pool_spec, "family": family, "reuse": chain}
+                for k, (h, results, proj, viol, model_ops) in enumerate(run_reuse(ctx, family, tmpdir, pool_spec, chain)):
+                    for msg, key in viol:
+                        ctx.violate(case, msg, key=key)
+                    lines.append("lifeseq pooled %s" % " ".join(model_ops))
+                    impl_out.append(" ".join(results) + " ; " + proj)
+                    ctx.count(case_repr=dict(case, life_cycle=k + 1, results=results, final=proj),
+                              nontrivial_key=("reuse", pool_spec, family, k, tuple(map(tuple, chain[: k + 1]))),
+                              kind="history/pooled/pool-reused/life-cycle-%d%s" % (k + 1, "" if k == 0 else "/after-" + history_class(chain[k - 1])))
+                    ctx.hist["reuse/pool(max=%d,min=%d)" % tuple(pool_spec)] += 1
         # concurrent clients
         # a connection occupies a pool worker while it is handled and the listen backlog is 5: beyond workers + backlog the
         # kernel (not the server) turns connections away, so the number of simultaneous clients stays below that
@@ -1244,6 +1359,11 @@ def replay(payload):
         pool = tuple(case["pool"]) if case.get("pool") else None
         if case.get("concurrent"):
             viol, _ = concurrent_clients(C(), case["server"], case["family"], tmpdir, pool, case["clients"], case["calls"], seeds=case["seeds"])
+        elif "reuse" in case:
+            viol = []
+            for h, results, proj, vs, _ in run_reuse(C(), case["family"], tmpdir, pool, case["reuse"]):
+                print(h, results, proj)
+                viol += vs
         elif "history" in case:
             results, proj, viol, _ = run_history(C(), case["server"], case["family"], tmpdir, pool, case["history"])
             print(results, proj)
